@@ -35,6 +35,8 @@ def cases(tier, seed):
             opts["buffer_ntrain"] = int(rng.choice([0, 5, 100]))
         if rng.random() < 0.2:
             opts["gp_radius"] = float(rng.choice([0.5, 1.0]))
+        if rng.random() < 0.3:
+            opts["cache_size"] = int(rng.choice([3, 10, 40]))  # the evaluation log is re-allocated during the run
         spec = gen.make_spec(rng, D=D, geom=str(rng.choice(["lin", "tight", "log", "unb", "offcentre"], p=[0.3, 0.3, 0.15, 0.1, 0.15])),
                              x0mode=str(rng.choice(["in", "none", "onlb"], p=[0.6, 0.2, 0.2])),
                              land=str(rng.choice(["quad", "sphere", "l1", "rosen", "stair", "bowl4"])), where=str(rng.choice(["in", "onb", "out"], p=[0.5, 0.3, 0.2])),
